@@ -256,8 +256,12 @@ def judge(ctx, case, ob):
         v("exact-set", missing=[k for k in want if k not in got], unexpected=[k for k in got if k not in want])
     marked = [n[:-1] for n, _ in entries if n.endswith("*")]
     dflt = G.oracle_default(pkg)
+    dv = case.get("dv")
+    if dflt is not None and dv is not None and not G.package_level_in_godoc(dv, "Default"):
+        dflt = None         # go/doc files the declaration under a named type: not among the package's variables (the reference)
+    skip_default = G.default_undecided(pkg)
     wantmark = [G.go_lower(G.oracle_key(dflt))] if dflt else []
-    if sorted(G.go_lower(m) for m in marked) != wantmark or footer != bool(wantmark):
+    if not skip_default and (sorted(G.go_lower(m) for m in marked) != wantmark or footer != bool(wantmark)):
         v("default-mark", marked=marked, declared=wantmark)
     bylow = {G.go_lower(n): n for n in listed}
     for f in valid:
@@ -275,8 +279,9 @@ def judge(ctx, case, ob):
         ok = len(names) == len(p["args"]) and all(a == b if b is not None else a != "" for a, b in zip(p["args"], names))
         if not ok:
             v("help-args", target=n, shown=p["args"], declared=names)
-        if sorted(p["aliases"]) != G.oracle_aliases(pkg, f):
-            v("help-aliases", target=n, shown=p["aliases"], declared=G.oracle_aliases(pkg, f))
+        want_al = G.oracle_aliases(pkg, f) if (dv is None or G.package_level_in_godoc(dv, "Aliases")) else []
+        if sorted(p["aliases"]) != want_al:
+            v("help-aliases", target=n, shown=p["aliases"], declared=want_al)
     r = ob["run"]
     if r is not None:
         want_calls = [(did, [list(x) for x in expect]) for did, expect in r["plan"]]
@@ -324,7 +329,7 @@ def coq_case(case, ob, dv):
     for t in dv["types"]:
         for m in t["methods"]:
             docs[t["name"] + "." + m["name"]] = (m["doc"], m["syn"])
-    term = G.coq_pkg(pkg, docs, dv["pkgdoc"])
+    term = G.coq_pkg(pkg, docs, dv["pkgdoc"], hidden_vars=[n for n in ("Default", "Aliases") if not G.package_level_in_godoc(dv, n)])
     # helper functions are declarations too
     hf = ["{| fname := %s; recv := None; tparams := false; params := []; res := [{| rnames := 0; rkind_ := RKOther |}]; fdoc := \"\"; fsyn := \"\" |}" % coq_str(h["name"])
           for h in pkg["helpers"] if h["kind"] == "func"]
@@ -423,6 +428,8 @@ def run(ctx):
             cases.append({"stream": "mage-import", "pkg": G.gen_with_imports(rng)})
         for tag, where, envmode in G.variant_plan(rng, sh(["go", "env", "GOVERSION"], env=goenv())[1].strip()) * k:
             cases.append({"stream": "variants:%s:%s:%s" % (tag, where, envmode), "compile": True, "pkg": G.gen_variants(rng, tag, where, envmode)})
+        for form in G.DECL_FORMS * k:
+            cases.append({"stream": "decl-form:" + form, "pkg": G.gen_decl_form(rng, form)})
         for v in ["first", "last", "all"] * k:
             cases.append({"stream": "symlink:" + v, "pkg": G.gen_package(rng, nfiles=rng.choice([2, 3]), unicode=False, cli=False)})
         for c in cases[:6]:
@@ -431,8 +438,17 @@ def run(ctx):
             for _ in range(n * k):
                 cases.append({"stream": cls, "pkg": G.gen_clash(rng, cls)})
         # EVERY predeclared identifier, on every run (a random declaration kind each), and some ordinary names
-        for ident in G.PREDECLARED * (1 if ctx.quick else 4) + rng.sample(G.ORDINARY, 4):
+        # (the 14 measured identifiers one per package - the known finding is per identifier -, the others six to a package)
+        for ident in G.PREDECL_BASELINE * (1 if ctx.quick else 4):
             cases.append({"stream": "predeclared-shadowed", "ident": ident, "pkg": G.gen_clash(rng, "predeclared-shadowed", ident=ident)})
+        rest = [n for n in G.PREDECLARED if n not in G.PREDECL_BASELINE] * (1 if ctx.quick else 4) + rng.sample(G.ORDINARY, 4)
+        rng.shuffle(rest)
+        for i in range(0, len(rest), 6):
+            chunk = sorted(set(rest[i:i + 6]))
+            pkg = G.gen_clash(rng, "predeclared-shadowed", ident=chunk[0])
+            for n in chunk[1:]:
+                pkg["helpers"].append({"kind": rng.choice(["func", "var", "const", "type"]), "name": n, "file": 0, "bare": True})
+            cases.append({"stream": "predeclared-shadowed", "ident": "+".join(chunk), "pkg": pkg})
     for c in cases:
         pkg = c["pkg"]
         pname = "p%04d" % (mage.n + 1)
@@ -492,6 +508,13 @@ def run(ctx):
     inp = "".join(json.dumps({"dir": c["src"], "files": c["files"]}) + "\n" for c in cases)
     rc, out, err = sh([docview], input=inp.encode(), timeout=600)
     dvs = [json.loads(l) for l in out.splitlines() if l.strip()]
+    for c, dv in zip(cases, dvs):
+        c["dv"] = dv
+        if not dv.get("err"):
+            if not G.package_level_in_godoc(dv, "Aliases"):
+                c["alias_runs"] = []
+            if not G.package_level_in_godoc(dv, "Default") or G.default_undecided(c["pkg"]):
+                c["default_noargs"] = False
     if rc != 0 or len(dvs) != len(cases):
         raise BuildError("docview failed: " + err[-2000:])
     # ---- the implementation
